@@ -2871,6 +2871,28 @@ class StateEngine(object):
 
                 execution_arn = context["Execution"]["Id"]
 
+                branches = state.get("Branches", [])
+                if not (isinstance(branches, list) and all(
+                    isinstance(branch, dict) and
+                    isinstance(branch.get("StartAt"), str) and branch.get("StartAt")
+                    for branch in branches
+                )):
+                    """
+                    A branch that is not an object, or that names no state to
+                    start at, cannot be run: an event without a state name
+                    would even be taken for the start event of the execution.
+                    """
+                    message = ("{} Parallel state \"{}\": every element of "
+                               "\"Branches\" must be an object with a "
+                               "\"StartAt\" state name, "
+                               "Illegal State Machine").format(
+                        execution_arn, current_state
+                    )
+                    self.logger.error(message)
+                    handle_error(state, "States.Runtime", message)
+                    self.event_dispatcher.acknowledge(id)
+                    return
+
                 """
                 A Parallel State MUST contain a field named “Branches” which
                 is an array whose elements MUST be objects. Each object MUST
@@ -3081,6 +3103,24 @@ class StateEngine(object):
                             "Using Map State ItemProcessor with deprecated Parameters field"
                         )
                     item_selector = state.get("ItemSelector", state.get("Parameters"))
+
+                if not (isinstance(item_processor, dict) and
+                        isinstance(item_processor.get("StartAt"), str) and
+                        item_processor.get("StartAt")):
+                    """
+                    Without a state to start at the iterations cannot be run:
+                    an event without a state name would even be taken for the
+                    start event of the execution.
+                    """
+                    message = ("{} Map state \"{}\": \"ItemProcessor\" must be "
+                               "an object with a \"StartAt\" state name, "
+                               "Illegal State Machine").format(
+                        context["Execution"]["Id"], current_state
+                    )
+                    self.logger.error(message)
+                    handle_error(state, "States.Runtime", message)
+                    self.event_dispatcher.acknowledge(id)
+                    return
 
                 """
                 The “MaxConcurrency” field’s value is an integer that provides
